@@ -1,7 +1,7 @@
 """C11 — static sender traits are sound (blocking / sends_done), compared with the real headers.
 Theorems: coq/Properties_C11_calc.v; tie: compile-time sender_traits<S> and run-time blocking(s) of every
 generated expression against the Gallina mirrors (tools/k2traits.py), behaviour monitors in thorough tier."""
-import k2, k2traits
+import k2, k2traits, k2v2
 LEVEL = "proof"
 def run(chk, replay=None):
     chk.cov["trusted_base"] = [
@@ -13,3 +13,4 @@ def run(chk, replay=None):
     chk.prove()
     k2traits.run_traits(chk, 4 if chk.tier == "quick" else 20, 15, monitor=(chk.tier != "quick"))
     k2.standard_k2(chk)
+    k2v2.standard_k2v2(chk)   # second-generation model Calc2 (lifetimes, contexts, more algorithms): tie (theorems: Properties_*_calc2.v)
